@@ -3,6 +3,7 @@ CONSTANTS
   N <- EnvN
   W <- EnvW
   Bug <- EnvBug
+  FullOps <- EnvFull
 VIEW IView
 INVARIANT EqualSetsEqualWords
 CHECK_DEADLOCK FALSE
